@@ -17,6 +17,7 @@ from harness.engine import impl, tlc
 from harness.engine.report import Report
 
 PROP = 'C11'
+POLY_ONE = POLY_X = None
 GROUPINGS = {'UNIT': 'UNIT', 'GROUPED': 'GROUPED', 'OPT': 'GROUPED_OPTIMIZED'}
 SLICEVS = {'ROMBERG': 'ROMBERG_DEFAULT', 'TRAPEZOID': 'TRAPEZOID'}
 INTERVALS_Q = [(0.0, 1.0), (-1.0, 3.0), (0.1, 0.7)]
@@ -95,6 +96,9 @@ def run(tier, seed):
     from sparseSpACE.Extrapolation import (ExtrapolationGrid, BalancedExtrapolationGrid, GridBinaryTree, SliceGrouping, SliceVersion,
                                            SliceContainerVersion)
     from sparseSpACE.Grid import GlobalRombergGrid, GlobalBalancedRombergGrid
+    from sparseSpACE.Function import Polynomial1d
+    global POLY_ONE, POLY_X
+    POLY_ONE, POLY_X = Polynomial1d([1]), Polynomial1d([0, 1])
     intervals = INTERVALS_Q if tier == 'quick' else INTERVALS_T
     seen_force = set()
     for M in (3, 4):
@@ -186,9 +190,24 @@ def run(tier, seed):
                                     return eg.grid, eg.get_weights()
 
                                 def reused(cv=cv, fo=fo):
+                                    # the re-used object is also asked to integrate (the read-out users call): the weights it integrates with
+                                    # must be the weights of the CURRENT grid, whatever the object was used for before
                                     eg = reuse[(cv, fo)]
                                     eg.set_grid(list(grid), list(levels))
-                                    return eg.grid, eg.get_weights()
+                                    i1 = float(eg.integrate(POLY_ONE))
+                                    ix = float(eg.integrate(POLY_X))
+                                    used = [float(x) for x in eg.weights]
+                                    w = eg.get_weights()
+                                    gg = [float(x) for x in eg.grid]
+                                    sc = max(abs(a), abs(b), 1.0) * (b - a)
+                                    ok = (len(used) == len(w) and max(abs(u - float(v)) for u, v in zip(used, w)) <= 1e-11 * (b - a)
+                                          and abs(i1 - float(np.sum(w))) <= 1e-11 * (b - a) and abs(ix - float(np.dot(w, gg))) <= 1e-11 * sc)
+                                    if not ok:
+                                        rep.violation('C11_IntegrateUsesCurrentWeights', {'api': 'ExtrapolationGrid', 'container': cv, 'forced': fo},
+                                                      dict(ctx, call='reused object: set_grid, integrate(1), integrate(x), get_weights', integral_one=i1, integral_x=ix,
+                                                           weights_used=used, weights=list(map(float, w))),
+                                                      what='re-used ExtrapolationGrid on %s: integrate(1)=%r integrate(x)=%r do not agree with the weights of the current grid (sum %r)' % (ctx, i1, ix, float(np.sum(w))))
+                                    return eg.grid, w
                                 weights_event('ExtrapolationGrid:fresh', fo, cv, fresh)
                                 weights_event('ExtrapolationGrid:reused', fo, cv, reused)
                         for dc in (True, False):
